@@ -49,6 +49,7 @@ var vtypeNames = map[variants.VariantType]string{variants.Null: "Null", variants
 	variants.DateTime: "DateTime", variants.TimeSpan: "TimeSpan", variants.Object: "Object", variants.Array: "Array"}
 
 type c20heap struct {
+	own   []*variants.Variant // the list a variant handed out (AsArray) and was then set to again
 	slots [5]*variants.Variant
 	lists map[string][]*variants.Variant
 	elems map[string]*variants.Variant
@@ -63,6 +64,18 @@ func newC20heap() *c20heap {
 	for i := 1; i <= 5; i++ {
 		n := fmt.Sprintf("e%d", i)
 		h.elems[n] = variants.VariantFromInteger(100 + i)
+		h.names[h.elems[n]] = n
+	}
+	// two distinct elements holding host values of one uncomparable type (equal contents), one holding a struct with a slice inside
+	for i, o := range []any{map[string]int{"id": 1}, map[string]int{"id": 1}, struct {
+		Name string
+		Tags []string
+	}{"s1", []string{"x"}}, struct {
+		Name string
+		Tags []string
+	}{"s1", []string{"x"}}} {
+		n := fmt.Sprintf("eo%d", i+1)
+		h.elems[n] = variants.VariantFromObject(o)
 		h.names[h.elems[n]] = n
 	}
 	h.elems["nilptr"] = nil // a position the caller left unset
@@ -247,6 +260,24 @@ func execC20(seg []Ev) []Ev {
 					L = append(L, h.elems[n])
 				}
 				h.lists[toStr(in["list"])] = L
+			case "ownlist":
+				// the caller takes the variant's own list (AsArray) and sets the variant to that very list again: from then on the
+				// variant holds a copy like of any other list, and what the caller does to the list it holds is its own business
+				v := h.slots[toInt(in["v"])]
+				if v.Type() == variants.Array {
+					L := v.AsArray()
+					switch toStr(in["how"]) {
+					case "SetAsArray":
+						v.SetAsArray(L)
+					default:
+						v.SetAsObject(L)
+					}
+					h.own = L
+				}
+			case "ownput":
+				if i := toInt(in["i"]); i < len(h.own) {
+					h.own[i] = h.elems[toStr(in["e"])]
+				}
 			case "listappend": // the caller appends to its own list (into the spare capacity of its array when there is some)
 				h.lists[toStr(in["list"])] = append(h.lists[toStr(in["list"])], h.elems[toStr(in["e"])])
 			case "listcut": // the caller shortens its own list, keeping the array
@@ -534,6 +565,23 @@ func genC20(g *Gen) {
 				}
 			}
 		}
+	}
+	// the variant's own list handed back to it, then changed by the caller
+	for _, how := range []string{"SetAsObject", "SetAsArray"} {
+		for _, fh := range []string{"SetAsArray", "NewVariant"} {
+			for i := 0; i < 3; i++ {
+				g.Run("a variant set to the list it handed out itself", []Ev{{"op": "new"}, {"op": "listset", "list": "L1", "elems": []any{"e1", "e2", "e3"}}, {"op": "fromlist", "v": 1, "list": "L1", "how": fh},
+					{"op": "ownlist", "v": 1, "how": how}, {"op": "ownput", "i": i, "e": "e5"}, {"op": "copy", "w": 2, "v": 1, "how": "Clone"}, {"op": "ownput", "i": (i + 1) % 3, "e": "e4"},
+					{"op": "setbyindex", "v": 1, "i": 4, "e": "e2"}, {"op": "ownput", "i": 0, "e": "e3"}})
+			}
+		}
+	}
+	// arrays whose elements hold host values of uncomparable types: equality answers (an array and one built separately with
+	// other element objects of equal contents; the same element objects; a clone)
+	for _, pr := range [][2][]any{{{"eo1"}, {"eo2"}}, {{"eo3"}, {"eo4"}}, {{"e1", "eo1"}, {"e1", "eo2"}}, {{"eo1", "eo3"}, {"eo2", "eo4"}}, {{"eo1"}, {"eo3"}}, {{"eo1"}, {"eo1"}}} {
+		g.Run("arrays of elements with uncomparable host values", []Ev{{"op": "new"}, {"op": "listset", "list": "L1", "elems": pr[0]}, {"op": "fromlist", "v": 1, "list": "L1", "how": "SetAsArray"},
+			{"op": "listset", "list": "L2", "elems": pr[1]}, {"op": "fromlist", "v": 2, "list": "L2", "how": "NewVariant"}, {"op": "copy", "w": 3, "v": 1, "how": "Clone"},
+			{"op": "setbyindex", "v": 3, "i": 0, "e": "eo2"}, {"op": "setbyindex", "v": 2, "i": 2, "e": "eo4"}})
 	}
 	// random histories over 4 slots and 2 lists
 	n := g.Pick(800, 20000)
